@@ -1095,3 +1095,33 @@ benign("c04-isinstance-list", ["C04"], [(C, '''                if type(value) ==
                         target.write("(")''', '''                if isinstance(value, list):
                     if self.__get_arg_type(arg["name"]) == ["testlist"]:
                         target.write("(")''')])
+
+# --------------------------------------------------------------------------- C20
+seeded("y1-registered-lowercased", ["C20"], "Y1", [(C, "            globals()[command.__name__] = command", "            globals()[command.__name__.lower()] = command")], "suite registers Capitalised names... lookups then miss")
+seeded("y1-registry-in-dict", ["C20"], "Y1", [(C, "            globals()[command.__name__] = command", "            _registry[command.__name__] = command"), (C, '''def add_commands(cmds):''', '''_registry = {}
+
+
+def add_commands(cmds):''')])
+seeded("y1-lookup-indexes-first", ["C20", "C02"], {"C20": "Y1", "C02": "X8"}, [(C, '''    condition = (
+        cname not in gl
+        or not isinstance(gl[cname], type)
+        or not issubclass(gl[cname], Command)
+        or not hasattr(gl[cname], "args_definition")
+    )''', '''    condition = (
+        not isinstance(gl[cname], type)
+        or not issubclass(gl[cname], Command)
+        or not hasattr(gl[cname], "args_definition")
+    )''')], "unregistered name -> KeyError")
+seeded("y2-values-key-renamed", ["C20"], "Y2", [(C, '''        if "values" not in arg and "extension_values" not in arg:
+            return True
+        if "values" in arg and value.lower() in arg["values"]:
+            return True''', '''        if "allowed" not in arg and "extension_values" not in arg:
+            return True
+        if "allowed" in arg and value.lower() in arg["allowed"]:
+            return True''')], "value sets of custom definitions are ignored")
+benign("c20-add-commands-setitem-loop", ["C20", "C13"], [(C, '''    for command in cmds:
+        if command.__name__.endswith("Command"):
+            globals()[command.__name__] = command''', '''    namespace = globals()
+    for command in cmds:
+        if command.__name__.endswith("Command"):
+            globals()[command.__name__] = command''')])
